@@ -77,6 +77,24 @@ def run(ctx):
                 if res[1] is not None:
                     viol.append({'property': 'C14', 'kind': 'skip-brute-zero-total-loaded', 'witness': {'grammar_text': gt}})
                 continue
+            # case insertion, computed independently: C<n> directly after every A<n>, nothing else added
+            import re as _re
+            def _reps(st):
+                out = []
+                for tok in _re.findall('[A-Z][0-9]*', st):
+                    out.append(tok)
+                    if tok[0] == 'A':
+                        out.append('C' + tok[1:])
+                return out
+            for sk in (0, 1):
+                if res[sk] is None:
+                    continue
+                wr = [_reps(r[0]) for r in rows if not (sk and r[0] == 'M')]
+                gr = [list(b['replacements']) for b in res[sk]]
+                if gr != wr:
+                    viol.append({'property': 'C14', 'kind': 'case-insertion', 'skip_brute': bool(sk), 'got': str(gr)[:200], 'want': str(wr)[:200],
+                                 'witness': {'grammar_text': gt}})
+                    break
             want = [(f2h(float(r[1]) / total), r[0]) for r in rows if r[0] != 'M']
             got = None if res[1] is None else [(f2h(b['prob']), ''.join(x for x in b['replacements'] if not x.startswith('C'))) for b in res[1]]
             if got != want:
@@ -130,6 +148,11 @@ def run(ctx):
     for i in range(ctx.scale(2, 8)):
         om = gen_omen.gen_omen(rng, ngram=2, nletters=2, maxlen_extra=1)
         spec = gen_rulesets.gen_ruleset(rng, omen=om, mode='dyadic', markov=True, max_structs=2, max_pos=2, max_groups=3, max_vals=2)
+        # both flags must matter for this ruleset: a word variable with two masks of different probability, and a Markov structure
+        spec['terminals'].setdefault('A2', [['ab', '0.5'], ['cd', '0.25']])
+        spec['terminals']['C2'] = [['LL', '0.5'], ['UL', '0.25']]
+        if not any(st == 'A2' for st, _ in spec['grammar']):
+            spec['grammar'].append(['A2', '0.0625'])
         name = f"c14cli{i}"
         d = common.install_ruleset(spec, name)
         for fl in (['--skip_brute'], ['--all_lower'], ['--skip_brute', '--all_lower']):
